@@ -7,7 +7,7 @@ SPECIFICATION Spec
 CONSTANTS
     Alphabet <- AlphaMod
     TS = {0, 6}
-    Nows = {70}
+    Nows = {64}
     Prelude <- PreludeReg
     DefaultExp = 60
     Grace = 1
